@@ -111,6 +111,13 @@ def make_app(om, M):
         # configured after construction through setup() (the other applications get their configuration as a constructor argument)
         app = om.Ombott()
         app.setup({'max_memfile_size': M})
+    elif M == 8:
+        # this application maps the body errors to answers of its own (built with keyword arguments, as the constructor documents them)
+        errs = sut.sub('request_pkg.errors')
+        app = om.Ombott({'max_memfile_size': M, 'errors_map': {
+            errs.RequestError: om.HTTPError(status=422, body='unprocessable request'),
+            errs.BodySizeError: om.HTTPError(status=413, body='too large for this application'),
+            errs.BodyParsingError: om.HTTPError(status=400, body='broken transfer coding')}})
     else:
         app = om.Ombott({'max_memfile_size': M})
     seen = {}
